@@ -40,6 +40,8 @@ enum Ev {
     StrayNotice,
     /// virtual time passes: every stream id orphaned so far is now orphaned for longer than the driver's age threshold
     Clock,
+    /// 61 s of virtual time pass: every orphan so far is now over a minute old
+    ClockMinute,
     /// the server answers the background request on this stream (pre-filled scenarios)
     RespondBg(i16),
     /// a frame on a stream the server holds no request on; the router then breaks the connection
@@ -58,6 +60,7 @@ impl Ev {
             Ev::Consume(r) => format!("consume:{r}"),
             Ev::StrayNotice => "stray-notice".into(),
             Ev::Clock => "clock+1.1s".into(),
+            Ev::ClockMinute => "clock+61s".into(),
             Ev::RespondBg(s) => format!("respond-bg:{s}"),
             Ev::Unsolicited(s) => format!("unsolicited:{s}"),
             Ev::Break => "break".into(),
@@ -74,6 +77,7 @@ impl Ev {
             "consume" => Ev::Consume(b.parse().ok()?),
             "stray-notice" => Ev::StrayNotice,
             "clock+1.1s" => Ev::Clock,
+            "clock+61s" => Ev::ClockMinute,
             "respond-bg" => Ev::RespondBg(b.parse().ok()?),
             "unsolicited" => Ev::Unsolicited(b.parse().ok()?),
             "break" => Ev::Break,
@@ -107,6 +111,8 @@ struct Req {
     orphaned: bool,
     /// ... and that was more than the age threshold ago
     orphan_old: bool,
+    /// ... more than a minute ago
+    orphan_ancient: bool,
     rx: Option<hook::HandlerRx>,
 }
 
@@ -304,6 +310,9 @@ impl Model for M {
         if o.reqs.iter().any(|q| q.orphaned && q.phase == Phase::Written && !q.orphan_old) {
             v.push(Ev::Clock);
         }
+        if self.prefill <= 2048 && o.reqs.iter().any(|q| q.orphaned && q.phase == Phase::Written && !q.orphan_ancient) {
+            v.push(Ev::ClockMinute);
+        }
         if self.prefill == 0 {
             // (pre-filled scenarios: the stray notice is covered by the empty scenario; each transition there costs a 32768-allocate rebuild)
             v.push(Ev::StrayNotice);
@@ -342,7 +351,7 @@ impl Model for M {
             Ev::Submit => {
                 let rid = o.next_rid;
                 o.next_rid += 1;
-                o.reqs.push(Req { rid, phase: Phase::Queued, caller: Caller::Live, stream: None, orphaned: false, orphan_old: false, rx: None });
+                o.reqs.push(Req { rid, phase: Phase::Queued, caller: Caller::Live, stream: None, orphaned: false, orphan_old: false, orphan_ancient: false, rx: None });
             }
             Ev::Write(rid) => {
                 let i = idx(o, *rid)?;
@@ -472,6 +481,16 @@ impl Model for M {
                     }
                 }
             }
+            Ev::ClockMinute => {
+                rt.block_on(async { tokio::time::advance(std::time::Duration::from_secs(61)).await });
+                self.clock_advances.fetch_add(1, Ordering::Relaxed);
+                for q in o.reqs.iter_mut() {
+                    if q.orphaned && q.phase == Phase::Written {
+                        q.orphan_old = true;
+                        q.orphan_ancient = true;
+                    }
+                }
+            }
             Ev::StrayNotice => {
                 let before = self.snapshot_fg(o);
                 o.map.as_mut().unwrap().orphan(1 << 50);
@@ -598,7 +617,7 @@ impl Model for M {
         let mut rs: Vec<&Req> = o.reqs.iter().collect();
         rs.sort_by_key(|q| q.rid);
         for q in rs {
-            s.push_str(&format!("{}:{:?}:{:?}:{:?}:{}:{};", rank(q.rid), q.phase, q.caller, q.stream, q.orphaned, q.orphan_old));
+            s.push_str(&format!("{}:{:?}:{:?}:{:?}:{}:{}:{};", rank(q.rid), q.phase, q.caller, q.stream, q.orphaned, q.orphan_old, q.orphan_ancient));
         }
         let snap = self.snapshot_fg(o).unwrap();
         s.push_str(&format!("|n={}|", snap.allocated_count));
@@ -879,7 +898,7 @@ fn main() {
     r.note("scenarios", json!(per_scenario));
     r.note("fixpoint_all_scenarios", json!(all_fixpoint));
     r.set_exhaustive(all_fixpoint);
-    r.set_rule("E-BFS to a fixpoint over environment events {submit, write(allocate), respond(lookup + send through the returned handler), cancel, deliver-notice(orphan), clock +1.1 s (virtual: all orphans so far become 'old'), consume, stray notice, answer a pre-filled background request, unsolicited frame(lookup)+break, break(into_handlers)} on the real ResponseHandlerMap; at most K requests alive at once; canonical form = per-request (phase, caller, stream, orphaned) with request ids relabelled by rank + the map's four collections read back through the hook (orphaning Instants as an 'old' bit per orphan plus the map's own old_orphans_count: the tracker's tokio clock is a paused runtime owned by the harness). transitions = evaluations. distinct_nontrivial = distinct states in which some stream has BOTH a response owed by the server and its caller's cancellation notice in flight. traces_validated_against_impl = event histories replayed step-checked on a fresh real map (BFS rebuilds every state from its history; thorough adds a full second run of the empty scenario with another thread count).");
+    r.set_rule("E-BFS to a fixpoint over environment events {submit, write(allocate), respond(lookup + send through the returned handler), cancel, deliver-notice(orphan), clock +1.1 s / +61 s (virtual: all orphans so far become 'old' / 'over a minute old'), consume, stray notice, answer a pre-filled background request, unsolicited frame(lookup)+break, break(into_handlers)} on the real ResponseHandlerMap; at most K requests alive at once; canonical form = per-request (phase, caller, stream, orphaned) with request ids relabelled by rank + the map's four collections read back through the hook (orphaning Instants as an 'old' bit per orphan plus the map's own old_orphans_count: the tracker's tokio clock is a paused runtime owned by the harness). transitions = evaluations. distinct_nontrivial = distinct states in which some stream has BOTH a response owed by the server and its caller's cancellation notice in flight. traces_validated_against_impl = event histories replayed step-checked on a fresh real map (BFS rebuilds every state from its history; thorough adds a full second run of the empty scenario with another thread count).");
     r.assume("request ids matter to the map only through equality (relabelling by rank is sound); OrphanageTracker timestamps are not part of the canonical form because none of the explored events reads them");
     r.assume("a spurious refusal (allocate fails while ids are free) or an id leak is not a C02 safety violation; a leak makes the space infinite and is reported as a machinery error, not a verdict");
     r_owned.finish();
